@@ -157,6 +157,17 @@ func c07Run(args [][]string) []string {
 	if op == 8 {
 		return c07RunFixture()
 	}
+	// ops 9 and 10 name the build configuration (0 default, 1 -tags docker) they are meant for; a driver compiled
+	// with another configuration refuses them, so that an answer can only come from the build the check asked.
+	if op == 9 || op == 10 {
+		if len(args[0]) != 2 || ai(args[0][1]) != c07BuildCfg {
+			return []string{"9"}
+		}
+		if op == 10 { // the compile-time options of this build that decide what a summary discloses
+			return ok(obool(ptttype.USE_REAL_DESC_FOR_HIDDEN_BOARD_IN_MYFAV), oi(int64(ptttype.MAX_BOARD)))
+		}
+		op = 1 // op 9: the row through every entry point, as op 1, in this build
+	}
 	if op != 1 && op != 3 && op != 4 && op != 5 && op != 6 && op != 7 {
 		return []string{"9"}
 	}
